@@ -157,7 +157,7 @@ def sec_refinement_bounded(rep, tier):
 def run(rep, tier, seed, only=None):
     rep.assume(
         "half (2) of the property (convergence / agreement between adequate grids) is approximation theory about eko's interpolation polynomials and scipy's quadrature: NOT decided by any contract; only the bounded refinement experiment looks at it",
-        "spec integral continuous in x: textbook, given continuous basis functions that vanish at the borders of their support (A-eko; bounded stand-in on six grids, every x)",
+        "spec integral continuous in x: textbook, given continuous basis functions that vanish at the borders of their support (A-eko; stand-ins labelled bounded: symbolic nodes of any position for degree 1..4 and up to degree+3 nodes, and six concrete grids, every x)",
         "A-quad: scipy.integrate.quad returns the integral it is given (C01)",
     )
     for nm, f in (("wiring", sec_runner_wiring), ("c01", sec_c01_contracts), ("svtables", sec_sv_tables), ("tmcsupport", sec_tmc_support), ("aeko", H.eko_basis_standin), ("refinement", lambda r: sec_refinement_bounded(r, tier))):
